@@ -274,7 +274,14 @@ def run_check(pid: str, tier: str, seed: int, only: str | None = None) -> int:
             out = replay_file(prop, VERIF / rp, quiet=True)
             reproduced[f["kind"]] = out == f["kind"]
 
-    # regression replays committed under replays/<pid>/regress-*.json must pass
+    # regression replays committed under replays/<pid>/regress-*.json must pass (fixed findings and
+    # shrunk mutant reproductions); they bypass Hypothesis entirely
+    for rp in sorted((VERIF / "replays" / pid).glob("regress-*.json")):
+        kind = replay_file(prop, rp, quiet=True)
+        if kind is not None and kind not in known_kinds:
+            print(f"violation kind={kind} (regression replay)")
+            print(f"VIOLATION property={pid} replay={rp}")
+            return 1
     tasks = []
     for sub in prop.subs.values():
         if only and sub.name != only:
